@@ -467,6 +467,8 @@ def swap(ctx, am):
             mc[env['_V'].id] = env['_I'].id
     if set(mc.values()) != {I1, I2}:
         raise AnalysisError('%s: _find_link does not resolve the metaclass of both instances' % loc(fn))
+    lk = repo.func('xtuml.meta:Link.kind', required=False)
+    link_kind_is_to = lk is not None and any(isinstance(n, ast.Return) and n.value is not None and src(n.value) == 'self.to_metaclass.kind' for n in ast.walk(lk))
     loops = [n for n in walk_local(fn) if isinstance(n, ast.For)]
     if len(loops) != 1:
         raise AnalysisError('%s: _find_link no longer has a single search loop' % loc(fn))
@@ -490,6 +492,11 @@ def swap(ctx, am):
         understood = True
         for c in conj:
             m = pm.match('%s._F._E.kind == _M.kind' % avar, c) or pm.match('_M.kind == %s._F._E.kind' % avar, c)
+            if m is None and link_kind_is_to:
+                # Link.kind is the property `return self.to_metaclass.kind`
+                m = pm.match('%s._F.kind == _M.kind' % avar, c) or pm.match('_M.kind == %s._F.kind' % avar, c)
+                if m is not None:
+                    m = dict(m, _E='to_metaclass')
             if m is not None and isinstance(m['_M'], ast.Name) and m['_M'].id in mc:
                 field = field or m['_F']
                 if m['_F'] != field:
